@@ -52,13 +52,13 @@ EXHAUSTIVE = False
 EXHAUSTIVE_SUBSPACES = ["all 7^folds fault-mode assignments for each sampled (data set, folds<=4, encoding, override)"]
 
 
-def _data_params(rng, label_enc, lower):
+def _data_params(rng, label_enc, lower, big=False):
     nf = rng.randint(2, 4)
     strong = rng.randrange(nf)
     return {
         "data_seed": rng.getrandbits(32),
         "n_files": rng.choice([1, 1, 1, 2]),
-        "n_spectra": rng.randint(100, 150),
+        "n_spectra": rng.randint(190, 260) if big else rng.randint(100, 150),
         "max_per_spectrum": rng.choice([1, 2, 2]),
         "n_features": nf,
         "spec_extra": rng.choice([["ExpMass"], ["ret_time"], ["filename", "ExpMass"]]),
@@ -102,7 +102,7 @@ def scenarios(tier, batch_seed):
         for d in range(n_data):
             lower = (d + round_no) % 2 == 0
             for enc in ("pm1", "10", "bool"):
-                dp = _data_params(rng, enc, lower)
+                dp = _data_params(rng, enc, lower, big=(tier != "quick"))
                 fold_choices = [3] if tier == "quick" else [2, 3, 4]
                 for folds in fold_choices:
                     base = _base(rng, dp, folds, override=False, fmt=rng.choice(["pin", "pin", "parquet"]))
